@@ -38,3 +38,15 @@ Print Assumptions C10_accept_iff.
 Print Assumptions C10_roundtrip.
 Print Assumptions C10_length.
 Print Assumptions C10_pubkey_address.
+
+(* the all-zero hash on mainnet, the one case C10_length leaves open (executed with the concrete SHA-256) *)
+From BU Require Import Crypto.Sha256 Proofs.AddressExamples.
+Theorem C10_zero_hash_example :
+  option_map (@length Z) (address_to_string Crypto.Sha256.sha256 P2PKH "mainnet"%string (repeat 0 20)) = Some 27%nat /\
+  (match address_to_string Crypto.Sha256.sha256 P2PKH "mainnet"%string (repeat 0 20) with
+   | Some s => address_from_string Crypto.Sha256.sha256 P2PKH "mainnet"%string s
+   | None => None
+   end) = Some (repeat 0 20).
+Proof. exact zero_hash_mainnet. Qed.
+Print Assumptions C10_zero_hash_example.
+
